@@ -105,6 +105,25 @@ fn scenario<T: Hash + Eq + Clone + Debug>(vals: &[T], absent: &T, fresh: &T) {
             violation("clear", "ids after clear");
         }
         agree("clear", &s, &[vals[1].clone(), vals[0].clone()], absent);
+        // clear, refill past the retained capacity (a full chunk is retired into old_bufs[0]), iterate
+        let (mut s, _) = build(&pat, vals, absent, false);
+        s.clear();
+        let refill = [vals[1].clone(), vals[2].clone(), vals[3].clone(), vals[0].clone(), absent.clone()];
+        let mut m2: Vec<T> = Vec::new();
+        for x in refill.iter() {
+            if s.insert(x.clone()) as usize != m2.len() {
+                violation("clear_refill_iter", "ids after clear");
+            }
+            m2.push(x.clone());
+            if m2.len() <= 3 {
+                agree("clear_refill_iter", &s, &m2, absent);
+            }
+            let it: Vec<T> = s.iter().cloned().collect();
+            let it2: Vec<T> = (&s).into_iter().cloned().collect();
+            if it != m2 || it2 != m2 || s.len() != m2.len() {
+                violation("clear_refill_iter", "iteration after clear and refill");
+            }
+        }
         // clone: equal, independent growth
         let (s, model) = build(&pat, vals, absent, false);
         let mut c = s.clone();
